@@ -351,6 +351,20 @@ func clientChecks(c *Case, u *go9p.Ufs, r *rand.Rand, a *agg, replay any) error 
 		return fmt.Errorf("client attach: %v", err)
 	}
 	clnt.Root = root
+	// paths of depth 0 resolve to the root itself
+	if rfi, e := os.Lstat(c.A.Root); e == nil {
+		for _, p0 := range []string{"", "/", "//"} {
+			f, werr := clnt.FWalk(p0)
+			if werr != nil {
+				c.disc("c16", "c16:client-fwalk:depth0:error", fmt.Sprintf("FWalk(%q) fails: %v", p0, werr), false)
+				continue
+			}
+			if f.Qid.Path != ino(rfi) || f.Qid.Type&go9p.QTDIR == 0 {
+				c.disc("c16", "c16:client-fwalk:depth0:qid", fmt.Sprintf("FWalk(%q) returns a fid with qid %v; the root has inode %d and is a directory", p0, f.Qid, ino(rfi)), false)
+			}
+			_ = clnt.Clunk(f)
+		}
+	}
 	la, err := c.A.List()
 	if err != nil {
 		return err
